@@ -202,6 +202,7 @@ type Op struct {
 	Var      int    `json:"var,omitempty"`      // compile: binary variant (>0)
 	Start    string `json:"start,omitempty"`    // inst: name of the start function (startSpec); "" = none
 	DefStart bool   `json:"defstart,omitempty"` // inst+frombin+start: exported as "_start", ModuleConfig start functions left at the default
+	N        int    `json:"n,omitempty"`        // open: how many times the file is opened (each time a new descriptor); 0 = once
 	Bad      int    `json:"bad,omitempty"`      // inst: bit i set = file objects of index i (0 root dir, 1+k = f<k>) fail on Close with EIO
 	Hold     bool   `json:"hold,omitempty"`     // callctx in flight: the guest stays parked in the host function until a later "release" of this operation
 	NoNotif  bool   `json:"nonotif,omitempty"`  // inst/hostinst: no CloseNotifier in the context
@@ -274,7 +275,7 @@ func (o Op) String() string {
 	case kRelease:
 		return fmt.Sprintf("release the guest parked by #%d and collect its call", o.H)
 	case kOpen:
-		return fmt.Sprintf("slot%d guest: path_open(f%d)", o.H, o.Var%numFiles)
+		return fmt.Sprintf("slot%d guest: %d x path_open(f%d)", o.H, max(1, o.N), o.Var%numFiles)
 	case kCompile:
 		return fmt.Sprintf("Runtime.CompileModule(variant %d)", o.Var)
 	case kHostInst:
@@ -769,13 +770,17 @@ func (e *env) exec(idx int, o Op, raw *api.Module) (r Res) {
 			r.Err = "ExportedFunction(open) returned nil"
 			return
 		}
-		res, err := f.Call(ctx, uint64(o.Var%numFiles))
-		out := wz.Classify(err)
-		r.Kind = out.Kind
-		if out.Kind == wz.KOK && len(res) == 1 {
-			r.Val = res[0] // errno of path_open
-		} else {
-			r.Err = "open: " + out.String()
+		for i := 0; i < max(1, o.N); i++ { // every path_open yields a new descriptor and file object
+			res, err := f.Call(ctx, uint64(o.Var%numFiles))
+			out := wz.Classify(err)
+			r.Kind = out.Kind
+			if out.Kind != wz.KOK || len(res) != 1 {
+				r.Err = "open: " + out.String()
+				break
+			}
+			if r.Val = res[0]; r.Val != 0 { // errno of path_open
+				break
+			}
 		}
 	case kClose, kCloseC:
 		m := e.slot(o.H)
@@ -1456,6 +1461,21 @@ func probeKnown() {
 	})
 }
 
+// drawOpenCount: mostly one descriptor per open operation, sometimes enough to fill and cross
+// the 64- and 128-descriptor boundaries of the instance's descriptor table (descriptors 0-3
+// are stdio and the pre-opened mount).
+func drawOpenCount(t *rapid.T) int {
+	switch rapid.IntRange(0, 11).Draw(t, "open-count-class") {
+	case 0:
+		return rapid.IntRange(2, 6).Draw(t, "open-count")
+	case 1:
+		return rapid.IntRange(56, 70).Draw(t, "open-count")
+	case 2:
+		return rapid.IntRange(118, 134).Draw(t, "open-count")
+	}
+	return 1
+}
+
 var names = []string{"a", "b", ""}
 
 // genSeqOp draws the next operation given the model state (the model is pure: drawing from
@@ -1534,7 +1554,7 @@ func genSeqOp(t *rapid.T, s *seqRun) Op {
 			if len(cand) == 0 {
 				continue
 			}
-			return Op{K: kOpen, H: rapid.SampledFrom(cand).Draw(t, "slot"), Var: rapid.IntRange(0, numFiles-1).Draw(t, "file")}
+			return Op{K: kOpen, H: rapid.SampledFrom(cand).Draw(t, "slot"), Var: rapid.IntRange(0, numFiles-1).Draw(t, "file"), N: drawOpenCount(t)}
 		case kClose, kCloseC, kIsClosed, kCall, kCallCtx:
 			if len(held) == 0 {
 				if try > 8 {
@@ -1676,6 +1696,17 @@ func seqStats(s *seqRun) (nontrivial bool, labels []string) {
 	sort.Strings(labels)
 	if ctxClose {
 		labels = append(labels, "seq-closed-by-context-done")
+	}
+	var d64, d128 bool
+	for _, a := range s.e.attempts {
+		n := len(a.fileCloses())
+		d64, d128 = d64 || n >= 60, d128 || n >= 124
+	}
+	if d64 {
+		labels = append(labels, "seq-instance-with-64-or-more-descriptors")
+	}
+	if d128 {
+		labels = append(labels, "seq-instance-with-128-or-more-descriptors")
 	}
 	var files, badFiles bool
 	for _, in := range m.inst {
